@@ -34,6 +34,12 @@ EXTRA = [
     "int *p = &x; int q = *p**p; int r = a&&b; int m = a&-b; int n = x--- -y;",
     "char *s1 = \"a\"\"b\"; char *s2 = \"a\" \"b\"; int c1 = 'a'+'b';",
     "int a1[]={1,2,3};struct T{int x;}t={.x=1};int(*fp)(int)=0;",
+    # GNU statement expressions (which the parser accepts) in every place where an expression stands
+    # alone between delimiters of the enclosing construct
+    "int f(int a) { return ({ a + 1; }); }",
+    "void g(int a) { if (({ a; })) a = 1; while (({ a--; })) ; do ; while (({ a; })); switch (({ a; })) { case 1: ; } }",
+    "void h(int *v, int n) { for (({ n = 0; }); ({ n < 3; }); ({ n++; })) v[({ n; })] = sizeof(({ n; })); }",
+    "int k(int a) { a = ({ int t = a; t * 2; }); return ({ 1; }) , ({ 2; }); }",
 ]
 
 
